@@ -337,14 +337,16 @@ func (s *MemoryEventStore) After(_ context.Context, sessionID, streamID string, 
 		if !ok {
 			return nil, fmt.Errorf("MemoryEventStore.After: unknown stream ID %v in session %q", streamID, sessionID)
 		}
-		start := (index + 1) - dl.first
-		if start < 0 {
+		// Compare before subtracting: (index+1)-dl.first can overflow for
+		// indexes near the ends of the int range.
+		if index < dl.first-1 {
 			return nil, fmt.Errorf("MemoryEventStore.After: index %d, stream ID %v, session %q: %w",
 				index, streamID, sessionID, ErrEventsPurged)
 		}
-		if start >= len(dl.data) {
+		if index >= dl.first+len(dl.data)-1 {
 			return nil, nil
 		}
+		start := (index + 1) - dl.first
 		return slices.Clone(dl.data[start:]), nil
 	}
 
